@@ -3,6 +3,7 @@ import math
 import operator
 
 import common
+from e2e import try_
 from common import sx, Some
 
 
@@ -297,7 +298,46 @@ def e2e(run, N, branches):
                             for j, pi in enumerate(sel):
                                 if sorted(sp[j].x) != sorted(parts[pi].x):
                                     run.violation("partitions[%s][%d] differs from partition %d of the full shuffle" % (sel, j, pi), dict(case, kind="e2e-subset", sel=sel))
-    run.section("e2e", cases=ncase, frames=sorted(frames) + sorted(other))
+    # several key columns: the same key tuple must land in the same partition number whatever the column layout of the frame
+    # (key order in `on`, key columns stored in another relative order, different key names on the two sides of a join)
+    k1, k2 = rng.randint(0, 5, size=nrows), rng.randint(0, 4, size=nrows)
+    layouts = {
+        "a,b,x": pd.DataFrame({"a": k1, "b": k2, "x": range(nrows)}),
+        "x,b,a": pd.DataFrame({"x": range(nrows), "b": k2, "a": k1}),
+        "b,x,a float": pd.DataFrame({"b": k2.astype("float64"), "x": range(nrows), "a": k1.astype("float64")}),
+        "renamed p,q": pd.DataFrame({"q": k2, "p": k1, "x": range(nrows)}),
+    }
+    for n_in, n_out, method in ((3, 4, "tasks"), (5, 7, "tasks"), (3, 4, "disk"), (5, 3, "tasks")):
+        for opts in (({}, {"max_branch": 2}) if method == "tasks" else ({},)):
+            assign2 = {}
+            for nm, pdf in layouts.items():
+                on = ["p", "q"] if nm.startswith("renamed") else ["a", "b"]
+                ncase += 1
+                case = {"frame": nm, "n_in": n_in, "n_out": n_out, "method": method, "opts": opts, "on": on}
+                run.count(("e2e-multikey", tuple(sorted((k, str(v)) for k, v in case.items()))))
+                try:
+                    parts = parts_of(rt.dx.from_pandas(pdf, npartitions=n_in, sort=False).shuffle(on=on, npartitions=n_out, shuffle_method=method, **opts))
+                except Exception as ex:
+                    run.violation("multi-key shuffle raised %r" % (ex,), dict(case, kind="e2e-multikey"))
+                    continue
+                if sorted(x for p in parts for x in p.x) != list(range(nrows)):
+                    run.violation("multi-key shuffle is not a permutation of its input rows", dict(case, kind="e2e-multikey"))
+                for i, p in enumerate(parts):
+                    for kv in zip(p[on[0]], p[on[1]]):
+                        key = (float(kv[0]), float(kv[1]))
+                        if assign2.setdefault(key, (i, nm))[0] != i:
+                            run.violation("key %r -> partition %d in the frame with columns %s but %d in the frame with columns %s (same partition count)" % (
+                                key, i, nm, assign2[key][0], assign2[key][1]), dict(case, kind="e2e-multikey-consistency"))
+            # and the hash join built on it
+            l, r = layouts["a,b,x"], layouts["x,b,a"].rename(columns={"x": "y"})
+            exp = l.merge(r, on=["a", "b"])
+            ncase += 1
+            got = try_(lambda: rt.dx.from_pandas(l, npartitions=n_in).merge(rt.dx.from_pandas(r, npartitions=max(2, n_out - 1)), on=["a", "b"], shuffle_method=method, broadcast=False).compute())
+            if got[0] == "raise":
+                run.violation("two-key hash join raised %s" % got[1], {"kind": "e2e-multikey-join", "method": method})
+            elif len(got[1]) != len(exp) or sorted(zip(got[1].x, got[1].y)) != sorted(zip(exp.x, exp.y)):
+                run.violation("two-key hash join (%s, %d x %d partitions) returns %d rows, pandas %d" % (method, n_in, max(2, n_out - 1), len(got[1]), len(exp)), {"kind": "e2e-multikey-join", "method": method})
+    run.section("e2e", cases=ncase, frames=sorted(frames) + sorted(other), multikey_layouts=sorted(layouts))
 
 
 def run(run):
